@@ -124,9 +124,16 @@ IsFreshSimulate == Run.op = "simulate" /\ Opts.initState /\ Opts.initLog
 LogFieldsToCompare ==
   <<"pcost", "ocost", "mcost", "pwcost", "ts", "rem", "aw", "af", "ws", "wcost", "wt",
     "fs", "fcost", "ft", "cs", "cp", "pc">>
+\* the log clauses of the other properties index all logs by step; when the logs are not aligned
+\* they cannot be evaluated - that is C08's finding, everybody else reports X.logs-aligned (drift)
+LogsAligned(lg) == Cardinality(C08_AllLens(Cfg, lg)) = 1
 SimRunClauses ==
   LET fin == Run.final
-  IN   On("C05", C05_End(Cfg, Opts, fin.st, Run.ret))
+  IN IF ~LogsAligned(fin.lg)
+     THEN On("C05", C05_End(Cfg, Opts, fin.st, Run.ret)) \o On("C08", C08_L(Cfg, Opts, fin.lg))
+          \o << <<"X.logs-aligned", FALSE>> >>
+     ELSE
+       On("C05", C05_End(Cfg, Opts, fin.st, Run.ret))
      \o On("C13", << <<"C13.R.no-crash", Run.ret # "exc:ValueError">> >>)
      \o On("C11", << <<"C11.R.rule-accepted", Run.ret \notin {"exc:KeyError", "exc:TypeError"}>> >>)
      \o On("C01", C01_L(Cfg, Opts, fin.lg)) \o On("C02", C02_L(Cfg, Opts, fin.lg))
